@@ -83,7 +83,7 @@ fn main()
             let recs = match cmd.as_str()
             {
                 "sort" => drv_sat::sort_cases(n, random, seed),
-                "ident" => drv_sat::ident_cases(random, seed),
+                "ident" => { let mut v = drv_sat::ident_exhaustive(); v.extend(drv_sat::ident_cases(random, seed)); v },
                 "parse" => drv_sat::parse_cases(n, random, seed),
                 _ => drv_sat::persist_cases(n, seed),
             };
